@@ -368,15 +368,41 @@ def post_copy(ctx, call):
     ctx.judge("copy", bool(ok), [self], what="copy is not a same-class shallow copy with the same index types", op="copy", nontrivial=False)
 
 
+def _operand_bytes(ctx, call):
+    """pre-hook: the bytes of every array operand (array semantics: a binary operator never changes its operands)."""
+    out = []
+    for a in call.args:
+        arr = getattr(a, "array", a if isinstance(a, np.ndarray) else None)
+        out.append(None if arr is None else (arr, arr.dtype.str, arr.shape, arr.tobytes()))
+    return out
+
+
+def _with_operands_unchanged(post):
+    def both(ctx, call):
+        post(ctx, call)
+        for k, rec in enumerate(call.pre or []):
+            if rec is None:
+                continue
+            arr, dt, shape, raw = rec
+            if arr.dtype.str != dt or arr.shape != shape or arr.tobytes() != raw:
+                ctx.judge("arith.operands", False, [np.frombuffer(raw, dtype=dt).reshape(shape), arr], what=f"{call.name} changed the array of its operand {k} in place", op=call.name,
+                          feat={"op": call.name, "arg": k}, nontrivial=True)
+                return
+        if call.pre:
+            ctx.judge("arith.operands", True, [], op=call.name, nontrivial=False)
+
+    return both
+
+
 def install(ctx):
     import geometer.base as B
     import geometer.point as P
 
     core.wrap_method_everywhere(B.Tensor, "__getitem__", post_getitem)
     for n in ("__add__", "__radd__", "__sub__", "__rsub__", "__mul__", "__rmul__", "__truediv__", "__neg__"):
-        core.wrap_method(B.Tensor, n, post_arith)
+        core.wrap_method(B.Tensor, n, _with_operands_unchanged(post_arith), pre=_operand_bytes)
     for n in ("__add__", "__sub__", "__mul__", "__truediv__"):
-        core.wrap_method(P.PointLikeTensor, n, post_point_arith)
+        core.wrap_method(P.PointLikeTensor, n, _with_operands_unchanged(post_point_arith), pre=_operand_bytes)
     core.wrap_method(B.Tensor, "__array_ufunc__", post_ufunc)
     core.wrap_method(B.Tensor, "transpose", post_transpose)
     core.wrap_method_everywhere(B.TensorCollection, "expand_dims", post_expand_dims)
